@@ -232,6 +232,26 @@ def _worker_init(repo, x64, guard):
         sys.path.insert(0, repo)
     if VERIF not in sys.path:
         sys.path.insert(0, VERIF)
+    if os.environ.get("VERIF_COVERAGE_DIR"):
+        # diagnostic only (bin/coverage_report): which lines of jinns do the drivers of a check execute (tracing included)
+        import atexit
+        import coverage
+
+        cov = coverage.Coverage(data_file=os.path.join(os.environ["VERIF_COVERAGE_DIR"], "cov"), data_suffix=True,
+                                include=[os.path.join(repo, "jinns", "*")])
+        cov.start()
+
+        done = []
+
+        def _save():
+            if not done:
+                done.append(1)
+                cov.stop()
+                cov.save()
+        atexit.register(_save)
+        import multiprocessing.util as mpu      # multiprocessing children leave through os._exit: atexit alone does not run
+
+        mpu.Finalize(None, _save, exitpriority=0)
     import jax
 
     jax.config.update("jax_enable_x64", bool(x64))
